@@ -22,9 +22,9 @@ let mvp_case _ line =
     | "3" -> mvp3_run (nat_of_int fuel) prog (lookup labels) st
     | "4" -> mvp4_run (nat_of_int fuel) prog (lookup labels) st
     | "5" -> mvp5_run (nat_of_int fuel) prog (lookup labels) st
-    | v when String.length v >= 5 && List.mem (String.sub v 0 4) ["6.0x"; "6.1x"; "6.2x"; "6.3x"] ->
+    | v when String.length v >= 5 && List.mem (String.sub v 0 4) ["6.0x"; "6.1x"; "6.2x"; "6.3x"; "8.0x"] ->
       (* "6.Nx<par>", "6.Nx<par>o<k>", "6.Nx<par>r<seed>" or "6.Nx<par>g<seed>": MVP-6.N (N = 0..3) with <par>
-         execute/write units.  Go map iteration orders are arguments of the models:
+         execute/write units; "8.0x<par>..." the same for MVP-8.0 (Mvp80.v; ord also orders the snoop requests of a core).  Go map iteration orders are arguments of the models:
            ord   - a store's MemoryChanges map (all four models); in Mvp63 the same function also orders
                    controlUnit.pushedRunnersInPreviousCycle (pc = the reading runner) and the RAT value maps (pc < 0);
            pord  - Mvp61: which of the n matching runners of pushedRunnersInPreviousCycle is taken.
@@ -43,7 +43,14 @@ let mvp_case _ line =
       let split c = match String.index_opt rest c with
         | None -> None
         | Some i -> Some (int_of_string (String.sub rest 0 i), int_of_string (String.sub rest (i + 1) (String.length rest - i - 1))) in
-      let par, ord, pord = match split 'o', split 'r', split 'g' with
+      (* b<k> / d<k> (8.0, for classifying order-sensitive runs): the k-th permutation only for the maps of the control
+         unit's forwarding decision (pc >= 0) / only for the snoop requests of a core (pc <= -3), ascending elsewhere *)
+      let only = match split 'b', split 'd' with
+        | Some (par, k), _ -> Some (par, (fun cycle pc l -> if int_of_z pc >= 0 then perm_of (z_of_int k) l else l))
+        | None, Some (par, k) -> Some (par, (fun cycle pc l -> if int_of_z pc <= -3 then perm_of (z_of_int k) l else l))
+        | None, None -> None in
+      let par, ord, pord = match only with Some (par, f) -> par, f, pord_policy Z0 | None ->
+      match split 'o', split 'r', split 'g' with
         | Some (par, k), _, _ -> par, ord_policy (z_of_int k), pord_policy (z_of_int k)
         | None, Some (par, seed), _ ->
           par, (fun cycle pc l ->
@@ -68,6 +75,7 @@ let mvp_case _ line =
         | "6.0x" -> norat (mvp60_run_snap (nat_of_int par) ord (nat_of_int fuel) prog (lookup labels) st)
         | "6.1x" -> norat (mvp61_run_snap (nat_of_int par) ord pord (nat_of_int fuel) prog (lookup labels) st)
         | "6.2x" -> norat (mvp62_run_snap (nat_of_int par) ord (nat_of_int fuel) prog (lookup labels) st)
+        | "8.0x" -> mvp80_run_snap (nat_of_int par) ord (nat_of_int fuel) prog (lookup labels) st
         | _ -> mvp63_run_snap (nat_of_int par) ord (nat_of_int fuel) prog (lookup labels) st in
       (match result with
        | Inl (r, os) -> os_flag := (if os then " os=1" else " os=0"); r
